@@ -6,6 +6,10 @@
      cfg_ok c   : offset size in {1,2,4,8}; node size N (0 = default 4096) with 10 <= N < 2^32 and
                   (N-10)/11 <= 65535 (the root record count is a uint16)
      addr_ok c ops : the addresses handed out by the allocator during the history fit the offset size
+   Histories are lists of OInsert/OUpdate/OSearch/OHas/ODelete, OStoreLoad (WriteToFile + LoadFromFile into
+   a new object), ORewrite (WriteAt + LoadFromFile into a new object), OWriteAt (WriteAt in place, the
+   history continues on the SAME object: one loaded handle may be written in place any number of times)
+   and OStore (WriteToFile, same object); every theorem below that quantifies over `ops` covers all of them.
      has_collision (names_of ops) = false : no two distinct names of the history have the same hash *)
 From Coq Require Import Sorted.
 From HV Require Import Base.Prelude Base.Crc32 Spec.Lookup3 Model.BT2 Proofs.Lookup3 Proofs.BT2 Proofs.BT2Examples.
@@ -27,8 +31,8 @@ Theorem C14_sorted_counts : forall c ops, cfg_ok c -> addr_ok c ops ->
 Proof. exact sorted_counts. Qed.
 Print Assumptions C14_sorted_counts.
 
-(* every result of every operation (insert/update/search/has/delete/store+load/rewrite+load, present
-   and absent names, every mode) equals the result of the specification map, and at the end the record
+(* every result of every operation (insert/update/search/has/delete/store+load/rewrite+load/write in
+   place/store, present and absent names, every mode) equals the result of the specification map, and at the end the record
    list is exactly the image of the live keys with their latest values *)
 Theorem C14_refines_map : forall c ops, cfg_ok c -> addr_ok c ops -> has_collision (names_of ops) = false ->
   snd (run c ops) = snd (spec_run c ops)
@@ -81,6 +85,30 @@ Theorem C14_persist_any_point : forall c ops, cfg_ok c -> addr_ok c ops ->
   st_wf (strip_bt (bt (fst (run c ops)))).
 Proof. exact reachable_wf. Qed.
 Print Assumptions C14_persist_any_point.
+
+(* persistence of in-place rewrites at full strength: after ANY history (any number of WriteAt calls on
+   the same loaded handle, interleaved with inserts/updates/deletes/stores), whenever the last operation
+   is a successful write (WriteAt on the same object, WriteAt + reload, WriteToFile + reload), LoadFromFile
+   of the file at the object's loaded header address returns the in-memory object itself: records, leaf
+   view, all header fields (counts, root address), node size, loaded addresses; only the lazy-rebalancing
+   state is the receiver's.  So the image on disk equals the index after every write, not only the first. *)
+Theorem C14_image_after_every_write : forall c ops o recv, cfg_ok c -> addr_ok c (ops ++ [o]) ->
+  is_write o = true -> last (snd (run c (ops ++ [o]))) RErr = ROk ->
+  let w := fst (run c (ops ++ [o])) in
+  load_from (c_osz c) recv (fil w) (loaded_hdr (bt w)) = LOk (with_lazy (bt w) (lazy recv)).
+Proof. exact image_after_write. Qed.
+Print Assumptions C14_image_after_every_write.
+
+(* WriteToFile on the same object (no reload) after any history: it succeeds and the image at the header
+   address it returns (the last allocation) loads to the same records, counts and header *)
+Theorem C14_image_after_store : forall c ops recv, cfg_ok c -> addr_ok c (ops ++ [OStore]) ->
+  let w := fst (run c (ops ++ [OStore])) in
+  last (snd (run c (ops ++ [OStore]))) RErr = ROk
+  /\ exists s', load_from (c_osz c) recv (fil w) (next w - hsz c) = LOk s'
+       /\ recs s' = recs (bt w) /\ leaf_recs s' = recs (bt w) /\ header s' = header (bt w)
+       /\ node_size s' = node_size (bt w).
+Proof. exact image_after_store. Qed.
+Print Assumptions C14_image_after_store.
 
 (* the full statement without the collision hypothesis is false: "ayou" and "cpxv" *)
 Theorem C14_collision_refuted :
